@@ -29,7 +29,17 @@ class Coll:
         op = S.frame(S.OPEN, S.open_body(self.ras, bid=self.remote_id)).hex()
         first, second = ("cO", "cI") if self.order == "out-first" else ("cI", "cO")
         st = [["accept", "cO", 3000], ["recv", "cO", 1, 2000], ["dial", "cI"], ["recv", "cI", 1, 2000]]
-        if self.order == "fresh-inbound":
+        if self.order == "loser-ceased-first":
+            # the remote resolves the collision first and sends Cease on the connection that loses; that error has reached the
+            # manager (held at run.aftererr) when the winner asks for OpenConfirm and the loser announces it is going down:
+            # whichever the manager and its collision select pick first, the winner survives and becomes Established
+            win, lose = ("cO", "cI") if self.dominant else ("cI", "cO")
+            st = [["accept", "cO", 3000], ["recv", "cO", 1, 2000], ["dial", "cI"], ["recv", "cI", 1, 2000],
+                  ["send", lose, op, 0], ["recv", lose, 2, 2000], ["sleep", 30], ["arm", "run.aftererr"],
+                  ["send", lose, S.frame(S.NOTIF, S.notif_body(6, 7)).hex(), 0], ["wait_event", "point.hold", 1500, "run.aftererr"],
+                  ["send", win, op, 0], ["sleep", 40], ["release", "run.aftererr"], ["sleep", 60],
+                  ["send", win, KA, 0], ["sleep", 80]]
+        elif self.order == "fresh-inbound":
             # the outbound connection becomes Established while a just-admitted inbound connection's FSM has not made its
             # first transition yet (held at run.start): the inbound one must be closed
             st = [["accept", "cO", 3000], ["recv", "cO", 1, 2000], ["send", "cO", op, 0], ["recv", "cO", 2, 2000], ["sleep", 30],
@@ -80,6 +90,14 @@ class Coll:
         def alive(c):
             return not pre(c) and not (conns[c]["eof"] and conns[c]["eof_at"] < t_close - 5)
         survivors = [c for c in ("cO", "cI") if alive(c)]
+        if self.order == "loser-ceased-first":
+            win = "cO" if self.dominant else "cI"
+            bad = []
+            if not alive(win):
+                bad.append("the connection the rule keeps (%s) was closed although only the other one failed" % win)
+            if est != 1:
+                bad.append("OnEstablished fired %d times (expected once, on %s)" % (est, win))
+            return bad
         if self.order == "fresh-inbound":
             bad = []
             if not conns["cI"]["eof"] or conns["cI"].get("read_err") == "closed-locally":
@@ -141,6 +159,11 @@ def items(rng, tier):
             c.force = "run.start"
             out.append(c)
             sid += 1
+            for _ in range(16):     # two random choices decide which branch is taken: repeated
+                c = Coll(sid, lid, rid, las, ras, "loser-ceased-first")
+                c.force = "run.aftererr"
+                out.append(c)
+                sid += 1
     return out
 
 
@@ -150,7 +173,7 @@ def sys_part(tier, rng, rep, replay):
     forced = [c for c in its if c.force]
     cov = sysrun.run_convs(PID, free, rep, extra_check=lambda c, e, o, r: c.check(r), par=8)
     # schedule points are process-wide: scenarios that arm one run alone
-    cov2 = sysrun.run_convs(PID, forced, rep, extra_check=lambda c, e, o, r: c.check(r), par=1, confirm=5)
+    cov2 = sysrun.run_convs(PID, forced, rep, extra_check=lambda c, e, o, r: c.check(r), par=1, confirm=8)
     for k in ("evaluations", "distinct_nontrivial", "traces_validated_against_impl", "manager_histories_replayed",
               "manager_replay_divergences", "monitor_violations"):
         cov[k] = cov.get(k, 0) + cov2.get(k, 0)
